@@ -401,3 +401,52 @@ def c16_do_mean(kind, dtype=None, pixels=None, zones=None, nz=None, nodata=None,
             (abs(float(res[0, 0, 0]) - ref) <= 4 * eps * abs(ref) and abs(float(res[0, 0, 1]) - (k + 1)) <= eps * (k + 1))
         return {"violates": not ok, "mean": float(res[0, 0, 0]), "expected": float(ref), "count": float(res[0, 0, 1]), "pixels": k + 1}
     return {"violates": False}
+
+
+# ------------------------------------------------------------------ C10
+def _mk_reference(x):
+    import scipy.stats as ss
+    x = [float(v) for v in x]
+    n = len(x)
+    S = sum((x[j] > x[i]) - (x[j] < x[i]) for i in range(n - 1) for j in range(i + 1, n))
+    tau = S / (n * (n - 1) / 2)
+    from collections import Counter
+    tp = sum(t * (t - 1) * (2 * t + 5) for t in Counter(x).values())
+    var = (n * (n - 1) * (2 * n + 5) - tp) / 18
+    if S > 0:
+        z = (S - 1) / math.sqrt(var)
+    elif S < 0:
+        z = (S + 1) / math.sqrt(var)
+    else:
+        z = 0.0
+    p = 2 * (1 - ss.norm.cdf(abs(z)))
+    flag = 0
+    if p < 0.05:
+        flag = 1 if z > 0 else (-1 if z < 0 else 0)
+    slopes = [(x[j] - x[i]) / (j - i) for i in range(n - 1) for j in range(i + 1, n)]
+    return tau, p, float(np.median(slopes)), flag
+
+
+def c10_mk(kind, data, nodata=None):
+    from hdc.algo.ops import stats
+    x = np.array(data, dtype="int16")
+    if kind in ("parts", "1d"):
+        got = stats.mann_kendall_trend_1d(x)
+    elif kind == "gu":
+        got = stats._mann_kendall_trend_gu(x)
+    else:
+        got = stats._mann_kendall_trend_gu_nd(x, nodata)
+    got = [float(np.asarray(g).reshape(-1)[0]) for g in got]
+    if kind == "gu_nd" and all(v == nodata for v in data):
+        nd32 = float(np.float32(nodata))
+        ok = got[0] == nd32 and got[1] == nd32 and got[2] == nd32 and got[3] == -2
+        return {"violates": not ok, "got": got}
+    ref = _mk_reference(data)
+    bad = []
+    for name, g, r in zip(("tau", "p", "slope", "flag"), got, ref):
+        if abs(g - r) > 1e-5 * max(1.0, abs(r)):
+            # a p-value within rounding of 0.05 may flip the flag
+            if name == "flag" and abs(ref[1] - 0.05) < 1e-9:
+                continue
+            bad.append((name, g, r))
+    return {"violates": bool(bad), "got": got, "expected": list(ref), "bad": bad}
